@@ -1,6 +1,7 @@
 """C02 -- canonicalisation never changes what a URL means."""
 from common import Family
 import kernel as K
+import urlfam as UF
 
 PROPERTY = "C02"
 LEVEL = "model_checking"
@@ -25,4 +26,5 @@ def families(tier):
     for name in K.QUOTERS:
         for k in range(1, n + 1):
             fams.append(Family("kernel/%s/n=%d" % (name, k), K.h_meaning, dict(name=name, n=k), backends=("py", "c")))
+    fams += UF.families(UF.h_c02, tier)
     return fams
